@@ -20,7 +20,7 @@ pub static DEF: PropDef = PropDef {
     rule: "random phase: one run = a generated history of 4..14 WAL operations (append of a random-size batch - one run in forty with an entry of more than 2 MiB, one in a hundred and fifty with one of more than 64 MiB -, one run in eight continuing a log whose segment ids are about to need a seventh digit, rotation via segment limits of ~1/~2/~4 entries/unbounded, truncate_before, persist_flushed_seq, clean reopen, crash with the in-flight append cut at a drawn byte / at the sync / right after creating a new segment, crash inside persist_flushed_seq leaving 0..7 bytes, crash inside truncation, EIO/ENOSPC/short writes), with 1..4 crash-reopen rounds and appends after every reopen; sweep phase (fault enumeration): for each of N generated histories, one run per byte offset 0..=T of the final append (T = header+payload bytes), plus 'die at open of the rotated segment', each followed by a fixed reopen/append/reopen tail; distinct = distinct (history hash, cut position); non-trivial = completed AND at least one crash or disk fault fired",
     quick_runs: 4000,
     thorough_runs: 100_000,
-    run_cap_ms: 20_000,
+    run_cap_ms: 120_000,
     scen,
     extra_phase: Some(sweep_phase),
     real: &["cardinalsin::ingester::WriteAheadLog (open, append, rotate, read_entries[_after], truncate_before, next_seq)", "persist_flushed_seq / load_flushed_seq", "arrow IPC encoding, CRC"],
@@ -252,6 +252,8 @@ fn scen(spec: RunSpec) -> ScenFut {
             }
         };
         let nops = if is_sweep { sim::w_range(1, 6) } else { sim::w_range(4, 14) };
+        // (a run with a 70 MB entry re-reads it at every reopen: keep such histories short)
+        let nops = if huge_at.is_some() { nops.min(6) } else { nops };
         let mut step = 0;
         while step < nops {
             step += 1;
@@ -388,7 +390,7 @@ fn scen(spec: RunSpec) -> ScenFut {
             return;
         }
         // final phase: the (possibly swept) crash, then reopen / append / reopen rounds
-        let rounds = if is_sweep { 1 } else { sim::w_range(1, 3) };
+        let rounds = if is_sweep || huge_at.is_some() { 1 } else { sim::w_range(1, 3) };
         for r in 0..rounds {
             if wal.is_none() || failed() {
                 break;
